@@ -1,2 +1,224 @@
-(* Property C17 - statements only (proofs in Proofs/C17.v). Not built yet. *)
-From SC.Model Require Import Base.
+(* Property C17 - highlight (UI) tokens are well-formed character spans.
+   STATEMENTS ONLY (proofs: Proofs/C17.v).  Model functions: UiTokens.get_position /
+   check_collision / ui_add / ui_add_opt / ui_sort / ui_update (src/token/ui_token.rs), the
+   lexer passes Lexer.language_tokinizer / regex_tokinizer / alias_tokinizer (every parser
+   body adds its UI token through ui_add), Rules.update_token_variables / dyn_loop /
+   rule_tokinizer (ui_update), Api.tokinize / execute_text.
+   Spec: Spec/Spans.v (span_ok, disjoint, Inv, sorted_by_start, WF, byte_off, span_text). *)
+From SC.Model Require Import Base Num Types Config Case UiTokens Rx RuleFns Rules Lexer Api.
+From SC.Model Require Import NumF64 Run64.
+From SC.Spec Require Import Spans.
+From SC.Proofs Require Import C17.
+From Coq Require Import Sorting.Sorted Sorting.Permutation.
+
+Local Open Scope N_scope.
+
+(* ---- the byte -> character map, for ALL lines ---- *)
+(* the byte offset of character i is reported as i, for every index including the end *)
+Theorem C17_get_position_char : forall line i, (i <= length line)%nat ->
+  get_position line (byte_off line i) = N.of_nat i.
+Proof. exact get_position_char. Qed.
+
+(* every byte inside character i maps to i; the byte length maps to the character count *)
+Theorem C17_get_position_inside : forall line,
+  (forall i b, (i < length line)%nat -> byte_off line i <= b < byte_off line (S i) ->
+     get_position line b = N.of_nat i) /\
+  get_position line (byte_length line) = N.of_nat (length line).
+Proof. intro line. split; [exact (get_position_inside line)|exact (get_position_end line)]. Qed.
+
+(* any byte argument whatsoever yields a character position of the line; monotone on the
+   line; an offset past the end is reported as 0 *)
+Theorem C17_get_position_range : forall line,
+  (forall b, get_position line b <= N.of_nat (length line)) /\
+  (forall b1 b2, b1 <= b2 -> b2 <= byte_length line -> get_position line b1 <= get_position line b2) /\
+  (forall i j, (i < j <= length line)%nat ->
+     get_position line (byte_off line i) < get_position line (byte_off line j)) /\
+  (forall b, byte_length line < b -> get_position line b = 0).
+Proof.
+  intro line. repeat split.
+  - exact (get_position_range line).
+  - exact (get_position_mono line).
+  - exact (get_position_strict line).
+  - exact (get_position_outside line).
+Qed.
+
+(* ---- filling the collection ---- *)
+(* for ANY byte span and kind: bounds 0 <= s < e <= length (characters) and pairwise
+   disjointness are kept (the function checks s < e and collisions itself) *)
+Theorem C17_add_inv : forall line us st en k m,
+  Inv (N.of_nat (length line)) us ->
+  Inv (N.of_nat (length line)) (ui_add line us st en k) /\
+  Inv (N.of_nat (length line)) (ui_add_opt line us m k).
+Proof. intros. split; [now apply ui_add_inv|now apply ui_add_opt_inv]. Qed.
+
+(* a token is reported with its own kind over exactly its characters: the free byte range of
+   characters i..j is appended as (i, j, k); a range touching a claimed span is dropped whole *)
+Theorem C17_add_exact : forall line us k,
+  (forall i j, (i < j <= length line)%nat ->
+     check_collision us (N.of_nat i) (N.of_nat j) = true ->
+     ui_add line us (byte_off line i) (byte_off line j) k =
+     us ++ [{| ui_start := N.of_nat i; ui_end := N.of_nat j; ui_kind := k |}]) /\
+  (forall st en it, In it us ->
+     ui_start it < get_position line en -> get_position line st < ui_end it ->
+     ui_add line us st en k = us).
+Proof. intros. split; [intros; now apply ui_add_exact|intros; eapply ui_add_collision; eauto]. Qed.
+
+(* any sequence of additions from the empty collection satisfies the invariant *)
+Theorem C17_built_inv : forall line,
+  (forall us, ui_built line us -> Inv (N.of_nat (length line)) us) /\
+  (forall spans : list (N * N * uikind),
+     Inv (N.of_nat (length line))
+       (fold_left (fun us sp => ui_add line us (fst (fst sp)) (snd (fst sp)) (snd sp)) spans [])).
+Proof. intro line. split; [exact (ui_built_inv line)|exact (fold_ui_add_inv line)]. Qed.
+
+(* ---- sort ---- *)
+Theorem C17_sort : forall n us,
+  Permutation (ui_sort us) us /\ sorted_by_start (ui_sort us) /\ (Inv n us -> Inv n (ui_sort us)).
+Proof. intros. split; [|split]; [apply ui_sort_perm|apply ui_sort_sorted|apply ui_sort_inv]. Qed.
+
+(* bounds + pairwise disjoint + sorted by start = the statement's well-formedness *)
+Theorem C17_sorted_disjoint_wf : forall line us,
+  Inv (N.of_nat (length line)) us -> sorted_by_start us -> WF line us.
+Proof. exact sorted_inv_wf. Qed.
+
+Theorem C17_chain_iff : forall n us, Chain n us <-> Inv n us /\ sorted_by_start us.
+Proof. intros. split; [apply sorted_inv_of_chain|intros [? ?]; now apply chain_of_sorted_inv]. Qed.
+
+(* ---- update_tokens ---- *)
+(* the result is the list itself or one merged token (char of pst, char of pen, k) in place of
+   the block a .. j *)
+Theorem C17_update_shape : forall line us pst pen k us', ui_update line us pst pen k = Ok us' ->
+  us' = us \/
+  exists a j, (a <= S j)%nat /\ (S j <= length us)%nat /\
+    us' = firstn a us ++ {| ui_start := get_position line pst; ui_end := get_position line pen; ui_kind := k |}
+                      :: skipn (S j) us.
+Proof. exact ui_update_shape. Qed.
+
+(* on a sorted disjoint collection a merge with a non-empty character span keeps
+   well-formedness (also when the i8 index wraps and the block starts before token i) *)
+Theorem C17_update_wf : forall line us pst pen k us',
+  Chain (N.of_nat (length line)) us ->
+  ui_update line us pst pen k = Ok us' ->
+  get_position line pst < get_position line pen \/ us' = us ->
+  Chain (N.of_nat (length line)) us' /\ WF line us'.
+Proof.
+  intros line us pst pen k us' Hc Hu Hcond.
+  pose proof (ui_update_chain line us pst pen k us' Hc Hu Hcond) as H. split; [exact H|now apply chain_wf].
+Qed.
+
+(* ... and the drain cannot panic then: the start token is not after the end token *)
+Theorem C17_update_no_panic : forall line us pst pen k n, Chain n us ->
+  get_position line pst < get_position line pen ->
+  exists us', ui_update line us pst pen k = Ok us'.
+Proof. exact ui_update_no_panic. Qed.
+
+(* exactly when it panics: the start token's i8 index is more than one past the end token *)
+Theorem C17_update_panic_iff : forall line us pst pen k site,
+  ui_update line us pst pen k = Panic site <->
+  site = 1701 /\
+  exists i j, find_index (fun t => N.eqb (ui_start t) (get_position line pst)) us = Some i /\
+              (as_i8 i > -1)%Z /\
+              find_index (fun t => N.eqb (ui_end t) (get_position line pen)) us = Some j /\
+              (S j < Z.to_nat (as_i8 i))%nat.
+Proof. exact ui_update_panic_iff. Qed.
+
+(* `index as i8`: a start token at index 128..255 is left alone *)
+Theorem C17_update_i8 : forall line us pst pen k i,
+  find_index (fun t => N.eqb (ui_start t) (get_position line pst)) us = Some i ->
+  (128 <= i < 256)%nat -> ui_update line us pst pen k = Ok us.
+Proof. exact ui_update_i8_skip. Qed.
+
+(* outside the condition of C17_update_wf the function does insert malformed tokens / panic *)
+Theorem C17_update_degenerate_refuted :
+  let line := s "ab cd" in
+  ui_update line [tk 0 2 UText; tk 3 5 UText] 3 2 UVariableUse
+    = Ok [tk 0 2 UText; tk 3 2 UVariableUse; tk 3 5 UText] /\
+  ui_update line [tk 0 2 UText; tk 2 5 UText] 2 2 UVariableUse
+    = Ok [tk 0 2 UText; tk 2 2 UVariableUse; tk 2 5 UText] /\
+  ui_update line [tk 0 1 UText; tk 1 2 UText; tk 2 3 UText] 2 1 UVariableUse = Panic 1701.
+Proof. exact ui_update_degenerate_examples. Qed.
+
+(* ---- the model's entry points, all inputs ---- *)
+Section WithNum.
+Context {F : Type} {NF : Num F}.
+
+(* every line, configuration, language: the collection left by the lexer passes satisfies the
+   invariant, and the sort that the variable stage starts with makes it well-formed *)
+Theorem C17_lexer_inv : forall (lx : lexdata) today (cfg : config F) lang line st1 st2 st3,
+  language_tokinizer lx cfg lang line empty_state = Ok st1 ->
+  regex_tokinizer lx today cfg lang line st1 = Ok st2 ->
+  alias_tokinizer lx today cfg lang st2 = Ok st3 ->
+  Inv (N.of_nat (length line)) (ts_ui st3) /\
+  WF line (ui_sort (ts_ui st3)) /\ Chain (N.of_nat (length line)) (ui_sort (ts_ui st3)).
+Proof.
+  intros lx today cfg lang line st1 st2 st3 H1 H2 H3. split.
+  - exact (lexer_inv lx today cfg lang line st1 st2 st3 H1 H2 H3).
+  - exact (lexer_sorted_wf lx today cfg lang line st1 st2 st3 H1 H2 H3).
+Qed.
+
+(* the complete tokenizer (variables, units, rules included) and execute_text: every reported
+   offset is a character position of the line, never a byte offset beyond it *)
+Theorem C17_tokinize_in_line : forall (lx : lexdata) ck (cfg : config F) lang vs line st toks,
+  tokinize lx ck cfg lang vs line = Ok (st, toks) ->
+  Forall (in_line (N.of_nat (length line))) (ts_ui st).
+Proof. exact tokinize_in_line. Qed.
+
+Theorem C17_execute_text_in_line : forall (lx : lexdata) ck (cfg : config F) lang vs line lo vs',
+  execute_text lx ck cfg lang vs line = Ok (Some lo, vs') ->
+  Forall (in_line (N.of_nat (length line))) (lo_ui lo).
+Proof. exact execute_text_in_line. Qed.
+
+End WithNum.
+
+(* ---- non-vacuity: the real model at binary64 on Turkish lines ---- *)
+Theorem C17_examples :
+  ui_of_line (s "en") line_tr1
+    = Some [tk 0 3 UText; tk 4 5 UNumber; tk 6 7 UOperator; tk 8 9 UNumber; tk 10 15 UComment] /\
+  ui_of_line (s "tr") line_tr2
+    = Some [tk 0 2 UText; tk 3 5 UNumber; tk 6 13 UMonth; tk 14 18 UNumber] /\
+  ui_of_line (s "tr") line_tr3
+    = Some [tk 0 1 UVariableDefination; tk 2 3 UOperator; tk 4 6 UNumber; tk 7 14 UMonth] /\
+  (byte_length line_tr1 = 21 /\ length line_tr1 = 15%nat) /\
+  span_text line_tr1 (tk 4 5 UNumber) = s "1" /\ span_text line_tr1 (tk 6 7 UOperator) = s "+" /\
+  span_text line_tr1 (tk 10 15 UComment) = [35;32;246;246;246]%N /\
+  span_text line_tr2 (tk 6 13 UMonth) = [97;287;117;115;116;111;115]%N.
+Proof. exact real_examples. Qed.
+
+Theorem C17_examples_wf :
+  (forall us, ui_of_line (s "en") line_tr1 = Some us -> WF line_tr1 us) /\
+  (forall us, ui_of_line (s "tr") line_tr2 = Some us -> WF line_tr2 us) /\
+  (forall us, ui_of_line (s "tr") line_tr3 = Some us -> WF line_tr3 us).
+Proof. exact real_examples_wf. Qed.
+
+(* ---- known finding C17-casemap: spans computed on a case-mapped copy of the line ---- *)
+(* "ıııı est 12:30" and "İİİ 5 march 2020": well-formed spans over the wrong characters *)
+Theorem C17_casemap_refuted :
+  ui_of_line (s "en") line_cm1 = Some [tk 2 4 USymbol1; tk 5 8 UText; tk 9 14 UDateTime] /\
+  span_text line_cm1 (tk 2 4 USymbol1) = [305;305]%N /\
+  span_text line_cm1 (tk 5 8 UText) = s "est" /\
+  ui_of_line (s "en") line_cm2 = Some [tk 0 3 UText; tk 4 5 UNumber; tk 9 14 UMonth] /\
+  span_text line_cm2 (tk 9 14 UMonth) = s "ch 20" /\
+  firstn 5 (skipn 6 line_cm2) = s "march".
+Proof. exact casemap_misplaced. Qed.
+
+Print Assumptions C17_get_position_char.
+Print Assumptions C17_get_position_inside.
+Print Assumptions C17_get_position_range.
+Print Assumptions C17_add_inv.
+Print Assumptions C17_add_exact.
+Print Assumptions C17_built_inv.
+Print Assumptions C17_sort.
+Print Assumptions C17_sorted_disjoint_wf.
+Print Assumptions C17_chain_iff.
+Print Assumptions C17_update_shape.
+Print Assumptions C17_update_wf.
+Print Assumptions C17_update_no_panic.
+Print Assumptions C17_update_panic_iff.
+Print Assumptions C17_update_i8.
+Print Assumptions C17_update_degenerate_refuted.
+Print Assumptions C17_lexer_inv.
+Print Assumptions C17_tokinize_in_line.
+Print Assumptions C17_execute_text_in_line.
+Print Assumptions C17_examples.
+Print Assumptions C17_examples_wf.
+Print Assumptions C17_casemap_refuted.
